@@ -43,6 +43,10 @@ namespace ledger {
 void push_sort_value(std::list<sort_value_t>& sort_values,
                      expr_t::ptr_op_t node, scope_t& scope)
 {
+  // `amount,' or `,amount' parse into a list with an empty member
+  if (! node)
+    throw_(std::runtime_error, _("Sort expression has an empty component"));
+
   if (node->kind == expr_t::op_t::O_CONS) {
     while (node && node->kind == expr_t::op_t::O_CONS) {
       push_sort_value(sort_values, node->left(), scope);
